@@ -6,7 +6,7 @@
 //
 // input, one case per line:
 //   <I|T> <seed> <rows> <patch> <team size> <slots>
-//   S <cats> <nsyms> { <cat> <f|t|p|q> <weight> <nargs> <argcat>... }
+//   S <cats> <nsyms> { <cat> <f|t|p|q|n> <weight> <nargs> <argcat>... }
 //   O { N k | M k pgmhex | F k t | X a b k | B k idx cat |
 //       R k idx cat symid parhex nargs args... | D k idx | C k | A k }
 // output, one line per case:
@@ -80,6 +80,18 @@ public:
   vpar_r(const std::string &n, category_t c) : terminal(n, c) {}
   bool parametric() const override { return true; }
   terminal_param_t init() const override { return random::between<double>(-10.0, 10.0); }
+  value_t eval(symbol_params &) const override { return {}; }
+};
+
+// ephemeral constant drawn from a very narrow interval: many constants that
+// differ by less than the 1e-5 relative tolerance of almost_equal without
+// being identical (the boundary between gene::operator== and an exact order)
+class vpar_n final : public terminal
+{
+public:
+  vpar_n(const std::string &n, category_t c) : terminal(n, c) {}
+  bool parametric() const override { return true; }
+  terminal_param_t init() const override { return random::between<double>(1.0, 1.00003); }
   value_t eval(symbol_params &) const override { return {}; }
 };
 
@@ -291,6 +303,7 @@ int main()
         if (kind == "f") p = cx.prob.sset.insert(std::make_unique<vfun>(name, cat, ac), weight);
         else if (kind == "t") p = cx.prob.sset.insert(std::make_unique<vterm>(name, cat), weight);
         else if (kind == "p") p = cx.prob.sset.insert(std::make_unique<vpar_i>(name, cat), weight);
+        else if (kind == "n") p = cx.prob.sset.insert(std::make_unique<vpar_n>(name, cat), weight);
         else p = cx.prob.sset.insert(std::make_unique<vpar_r>(name, cat), weight);
         cx.syms.push_back(p);
         cx.id[p] = s;
